@@ -6,7 +6,7 @@
    psutil/_common.py   memoize_when_activated (cache_activate/deactivate, exceptions not memoized)
    psutil/_pslinux.py  Process.create_time, nice_set, ionice_set, rlimit, cpu_affinity_set,
                        _get_eligible_cpus, ppid, wrap_exceptions, boot_time, pids
-   transcribed from the code as it is in /repo now (after 32d3689, 5d0422d, a4fac6f, 7214dea).
+   transcribed from the code as it is in /repo now (after 32d3689, 5d0422d, a4fac6f, 7214dea, a87b45e, b70d950).
 
    The model sees the kernel only through [kview] -- what /proc and the system calls
    answer.  It never sees incarnation numbers: those exist only in Proc/Spec.v.
@@ -212,6 +212,7 @@ Definition setter_body (x : pobj) (s : setter) : pobj * outcome res * list sysc 
     let value := match v with Some n => n | None => 0 end in
     if negb (value =? 0) && ((cls =? 3) || (cls =? 0)) then (x, Exc ValueError, [])
     else if (value <? 0) || (7 <? value) then (x, Exc ValueError, [])
+    else if negb ((0 <=? cls) && (cls <=? 3)) then (x, Exc ValueError, [])     (* a87b45e *)
     else wrapped_sys x (SIonice (opid x) cls value)
   | Rlimit rsrc lims =>
     if opid x =? 0 then (x, Exc ValueError, [])
@@ -314,7 +315,17 @@ Fixpoint iter_loop (ps newp : list Z) (os : list pobj) (pm : list (Z * nat)) (ac
   | [] => (os, pm, Val (rev acc))
   | p :: rest =>
     match assoc_nat p pm with
-    | Some i => iter_loop rest newp os pm (i :: acc)
+    | Some i =>
+      (* b70d950: a cached instance that is_running() found stale is replaced *)
+      if match nth_error os i with Some x => oreused x | None => false end then
+        match new_obj p with
+        | Val y => iter_loop rest newp (os ++ [y])
+                             (filter (fun e => negb (fst e =? p)) pm ++ [(p, length os)]) (length os :: acc)
+        | Exc NoSuchProcess => iter_loop rest newp os (filter (fun e => negb (fst e =? p)) pm) acc
+        | Exc e => (os, pm, Exc e)
+        | OutOfModel => (os, pm, OutOfModel)
+        end
+      else iter_loop rest newp os pm (i :: acc)
     | None =>
       if memz p newp then
         match new_obj p with
